@@ -158,6 +158,11 @@ class SchedLock(object):
         if not blocking:
             if self.locked_:
                 return False
+        elif timeout is not None and timeout >= 0:
+            # a timed wait: the holder may take arbitrarily long, so the wait can expire whenever the lock is taken
+            if self.locked_:
+                self.sched.log("acquire-timeout", self.name)
+                return False
         else:
             self.sched.block_until(lambda: self.locked_)
         self.locked_ = True
@@ -226,6 +231,10 @@ class SchedRLock(SchedLock):
             return True
         if not blocking:
             if self.locked_:
+                return False
+        elif timeout is not None and timeout >= 0:
+            if self.locked_:       # a timed wait can expire whenever another thread holds the lock
+                self.sched.log("acquire-timeout", self.name)
                 return False
         else:
             self.sched.block_until(lambda: self.locked_)
